@@ -26,7 +26,7 @@ def directed_groups(rng):
             inv = None
             for _ in range(10):
                 inv = A.gen_invocation(rng, d["shape"], fun, lv)
-                if inv is not None and not inv.get("known"):
+                if inv is not None:
                     break
             if inv is not None:
                 invs.append(inv)
@@ -73,6 +73,9 @@ def directed_groups(rng):
                    "perm": list(reversed(range(len(dz["rows"]))))})
     groups.append({"ds": dz, "invs": [{"level": "calc", "f": "ratio_to_report", "operand": "Me_1", "target": "Me_9", "part": ["Id_1"], "ord": [], "win": None,
                                        "ties": False}], "perm": list(reversed(range(len(dz["rows"]))))})
+    # numeric-only functions over String/Boolean operands -> Semantic 1-1-1-1 (small groups: a failing script is re-run per statement)
+    for _ in range(3):
+        groups.append(A.make_type_error_group(rng, 4))
     return [g for g in groups if g["invs"]]
 
 
@@ -97,6 +100,8 @@ def run_groups(ctx, pool, groups, tag, stats, shrink_budget, futs=None):
                          ("partition", "+".join(inv["part"]) or "(none)"),
                          ("order", ",".join(("m" if c.startswith("Me") else c) + ("↓" if d else "↑") for c, d in inv["ord"]) or "(none)")):
                 stats[k][v] = stats[k].get(v, 0) + 1
+            if inv.get("type_error"):
+                stats["function"]["(non-numeric operand -> 1-1-1-1)"] = stats["function"].get("(non-numeric operand -> 1-1-1-1)", 0) + 1
             if inv.get("ties"):
                 stats["function"]["rank(ties)"] = stats["function"].get("rank(ties)", 0) + 1
             ea, eb = er["a"][i], er["b"][i]
@@ -121,7 +126,7 @@ def run_groups(ctx, pool, groups, tag, stats, shrink_budget, futs=None):
                 continue
             stats["disagreements"] += 1
             kind = "perm" if d_perm else "value"
-            key = inv.get("known") or A.stable_key(inv, kind)
+            key = A.stable_key(inv, kind)
             what = f"DS_r <- {cj['vtl']}; :: " + (d_perm or d_model)
             if ctx._known_key(key) is None and shrink_budget[0] > 0:
                 shrink_budget[0] -= 1
@@ -192,7 +197,7 @@ def run(ctx):
         target = 220 if quick else 6000
         groups, n = [], 0
         while n < target:
-            g = A.make_group(ctx.rng, ctx.rng.choice([10, 12, 12, 14]))
+            g = A.make_type_error_group(ctx.rng, 3) if ctx.rng.random() < 0.08 else A.make_group(ctx.rng, ctx.rng.choice([10, 12, 12, 14]))
             if g["invs"]:
                 groups.append(g)
                 n += len(g["invs"])
@@ -215,14 +220,15 @@ def run(ctx):
                        "(none) | Id_1,Id_2 | Id_2; order by lists that are total inside each partition (identifier, or measure then identifiers; asc/desc; "
                        "explicit asc), plus rank ordered by a measure only (ties); windows omitted | data points | range (Integer/Number identifier key) with "
                        "bounds unbounded / 0-3 preceding / current / 0-3 following, also written in swapped order; dataset level and inside calc (new or "
-                       "overwritten component); every case run on two input row orders; distinct = (dataset, invocation)")
+                       "overwritten component); dataset-level count over several measures; numeric-only functions over String/Boolean operands (expected Semantic "
+                       "1-1-1-1); every case run on two input row orders; distinct = (dataset, invocation)")
     ctx.oblige("K: engine = Model/Analytic.v (d_analytic / d_calc_analytic) on every generated case and engine(input) = engine(permuted input), "
                "or the disagreement is reported", True)
     ctx.trusted.append("DuckDB 1.5.5 executes the emitted SQL (observed only). Bounds of the correspondence: ASCII strings; |Integer| <= 100 and Numbers on a 1/4 grid "
                        "in [-10,10] so that avg/var/stddev recovered through limit_denominator(10^6) are exact; stddev compared through its square; the swap of two "
                        "same-direction window bounds done by the engine's AST constructor is mirrored by the generator (normalise_bounds), not by the model; "
-                       "frames DuckDB rejects at parse time (start after end by kind), analytic invocations without order by, lag/lead without offset and "
-                       "numeric functions over String/Boolean measures are not generated")
+                       "frames DuckDB rejects at parse time (start after end by kind), analytic invocations without order by and lag/lead without offset are "
+                       "not generated; declared component types reach the model only as the Integer/Number flags of d_analytic_t / d_calc_analytic_t")
 
 
 def replay(ctx, obj):
